@@ -1420,6 +1420,7 @@ func main() {
 		run.MarkCapped()
 		seedsPart()
 		auxFrequencies()
+		auxSwapFrequencies()
 		run.Add("evaluations", evals.Load())
 		run.Finish()
 		return
@@ -1459,7 +1460,7 @@ func main() {
 		"P: Permutation/SubPermutation/Shuffle/Samples for all n<=nmax, m<=n: DFS over all tapes over one representative byte per measured indistinguishability class, all tapes consuming <= minimal+2 bytes, every run on the real code; outputs valid, per consumed length all n!/(n-m)! outcomes produced by the same number of tapes; "+
 		"P2 (sparse shapes): SubPermutation/Samples(n,m) for n=9..34 with m<=3 and n in {48,63,64,65,100,128,129,200,255,256} with m<=2: calls consuming <= 4 tape bytes are decided like P over all tapes; calls consuming more (SubPermutation = full Permutation(n)) over all tapes with <= 2 non-zero draws, validity only; "+
 		"H (history independence): Permutation/SubPermutation/Shuffle/Samples for n in {1,2,3,5,8,9,16,17,100,255,256,257,258,300} (thorough also 511..513, 1000, 65535..65537) x m in {1,2,n/2,n} x 5 tapes, run on a fresh generator and right after each of 6 prior calls that leave non-zero bytes in the internal buffers: same result, same number of reads; "+
-		"R (structure-independent range part): UintN(n) < n for every n <= 1024 and the special set on 6 tapes; AUX: auxiliary frequency pass with the real core and fixed seeds (parity, upper half, single values; threshold 12 standard deviations); the attempt-level parts U1-U3, U5, P, P2 are applied only if UintN consumes the source as one Read of bytes(n-1) bytes per attempt (measured first); "+
+		"R (structure-independent range part): UintN(n) < n for every n <= 1024 and the special set on 6 tapes; AUX: auxiliary frequency passes with the real core and fixed seeds (UintN: parity, upper half, single values; Shuffle/Samples for every n = 2..24 and some larger n: per step the frequency of every swap target; threshold 12 standard deviations); the attempt-level parts U1-U3, U5, P, P2 are applied only if UintN consumes the source as one Read of bytes(n-1) bytes per attempt (measured first); "+
 		"E: all (n,m) in {-2^63,-2^31,-1000,-4..9}^2 must error iff n<0 or m<0 or m>n; S: equal seeds/customizers give equal outputs on a fixed call script with the real ChaCha20 core. "+
 		"distinct_nontrivial counts distinct n (U1,U3,U4 first argument), distinct (function,n,m,outcome) reached in P, distinct argument tuples in E, seed configurations in S; evaluations = library calls judged.")
 	run.Set("uintn_exhaustive_bound_requested", N)
@@ -1599,6 +1600,7 @@ func main() {
 	rangePart()
 	historyPart(run.Thorough())
 	auxFrequencies()
+	auxSwapFrequencies()
 
 	argsPart()
 	seedsPart()
@@ -1805,4 +1807,118 @@ func auxFrequencies() {
 	}
 	evals.Add(int64(len(ns)) * draws)
 	run.Set("aux_frequency_pass", map[string]any{"n": ns, "draws_per_n": draws, "largest_deviation_in_standard_deviations": math.Round(worst*100) / 100, "threshold": 12, "role": "auxiliary (sampled with fixed seeds); not the deciding step"})
+}
+
+
+// auxSwapFrequencies is the second AUXILIARY pass (sampled with fixed seeds, never the deciding
+// step): Shuffle(n) and Samples(n,m) with the real ChaCha20 core. In a uniform partial shuffle the
+// second index of the swap of step i is uniform over the n-i remaining positions whatever happened
+// before; the pass counts, per step, how often every position was chosen and compares with the
+// expectation (cells whose expectation is below 30 are skipped; threshold 12 standard deviations).
+// It covers population sizes for which the tape tree is not enumerable (every n from 2 to 24 and a
+// few larger ones) and implementations whose use of the source the enumeration cannot take apart.
+func auxSwapFrequencies() {
+	type job struct{ n, m, draws int }
+	var jobs []job
+	for n := 2; n <= 24; n++ {
+		ms := map[int]bool{1: true, n / 2: true, n - 2: true, n - 1: true, n: true}
+		for m := range ms {
+			if m >= 1 && m <= n {
+				jobs = append(jobs, job{n, m, 1 << 15})
+			}
+		}
+	}
+	for _, n := range []int{32, 33, 64, 100, 256, 257, 300} {
+		jobs = append(jobs, job{n, n, 1 << 11}, job{n, 3, 1 << 13})
+	}
+	sort.Slice(jobs, func(a, b int) bool {
+		if jobs[a].n != jobs[b].n {
+			return jobs[a].n < jobs[b].n
+		}
+		return jobs[a].m < jobs[b].m
+	})
+	worst := make([]float64, len(jobs))
+	var total atomic.Int64
+	ev.Par(len(jobs), func(ji int) {
+		j := jobs[ji]
+		seed := make([]byte, random.Chacha20SeedLen)
+		for k := range seed {
+			seed[k] = byte(k*29+3) ^ byte(j.n) ^ byte(j.m<<3)
+		}
+		p, err := random.NewChacha20PRG(seed, []byte("c15swap"))
+		if err != nil {
+			run.Fatal("%v", err)
+		}
+		counts := make([][]int, j.m)
+		for i := range counts {
+			counts[i] = make([]int, j.n-i)
+		}
+		bad := ""
+		for d := 0; d < j.draws && bad == ""; d++ {
+			step := 0
+			sw := func(a, b int) {
+				if step < j.m && a == step && b >= a && b < j.n {
+					counts[step][b-a]++
+				} else if bad == "" {
+					bad = fmt.Sprintf("swap(%d,%d) as swap number %d", a, b, step)
+				}
+				step++
+			}
+			var err error
+			if j.m == j.n {
+				err = p.Shuffle(j.n, sw)
+			} else {
+				err = p.Samples(j.n, j.m, sw)
+			}
+			if err != nil {
+				bad = "error: " + err.Error()
+			} else if step != j.m && !(j.m == j.n && step == j.n) {
+				// (a final no-op swap may or may not be reported; anything else is a wrong count)
+				if !(step == j.m-1 && j.m == j.n) {
+					bad = fmt.Sprintf("%d swaps for m=%d", step, j.m)
+				}
+			}
+		}
+		total.Add(int64(j.draws))
+		name := fmt.Sprintf("Samples(%d,%d)", j.n, j.m)
+		if j.m == j.n {
+			name = fmt.Sprintf("Shuffle(%d)", j.n)
+		}
+		if bad != "" {
+			// the swap protocol differs from "step i swaps position i with a position in [i,n)": this
+			// pass does not apply to such an implementation (the validity of the result is decided elsewhere)
+			worst[ji] = -1
+			return
+		}
+		for i := range counts {
+			cells := float64(j.n - i)
+			exp := float64(j.draws) / cells
+			if exp < 30 || cells < 2 {
+				continue
+			}
+			sd := math.Sqrt(float64(j.draws) * (1 / cells) * (1 - 1/cells))
+			for b, c := range counts[i] {
+				z := (float64(c) - exp) / sd
+				if math.Abs(z) > worst[ji] {
+					worst[ji] = math.Abs(z)
+				}
+				if math.Abs(z) > 12 {
+					viol("aux-frequency:swap-target", fmt.Sprintf("auxiliary pass (real ChaCha20 core, fixed seed, %d calls): in %s the swap of step %d chose position %d in %d calls, expected about %.0f (%.1f standard deviations)", j.draws, name, i, i+b, c, exp, z),
+						replay{Kind: "aux-frequency", NInt: j.n, M: j.m, Note: fmt.Sprintf("%s step %d target %d: %d of %d calls, z = %.1f", name, i, i+b, c, j.draws, z)})
+					return
+				}
+			}
+		}
+	})
+	w, skipped := 0.0, 0
+	for _, x := range worst {
+		if x < 0 {
+			skipped++
+		} else if x > w {
+			w = x
+		}
+	}
+	evals.Add(total.Load())
+	run.Set("aux_swap_frequency_pass", map[string]any{"jobs": len(jobs), "calls": total.Load(), "largest_deviation_in_standard_deviations": math.Round(w*100) / 100, "threshold": 12,
+		"jobs_not_applicable_because_the_swap_protocol_differs": skipped, "shapes": "Shuffle(n) and Samples(n,m) for every n = 2..24 with m in {1, n/2, n-2, n-1, n}; n in {32,33,64,100,256,257,300} with m in {3, n}", "role": "auxiliary (sampled with fixed seeds); not the deciding step"})
 }
